@@ -73,6 +73,9 @@ def ascii_text(rng, max_len: int = 18, min_len: int = 0, lengths=None) -> str:
     r = rng.random()
     if r < 0.25 and not lengths:
         return rng.choice(DOCUMENTED_TEXT)[:max_len]
+    if r < 0.45 and r >= 0.33 and not lengths:
+        # type numbers: three leading digits carry a meaning for some vendors (e.g. 685... = current-transformer meter)
+        return (str(rng.choice((rng.randint(600, 699), 685, 684, 655, 656, 585, 100, 999))) + "".join(rng.choice("0123456789ABN") for _ in range(rng.choice((0, 1, 9, 15)))))[:max_len]
     if r < 0.33 and not lengths:
         # words that mean something to Python / the parsing library, alone or embedded
         t = rng.choice(TOKENS)
